@@ -202,5 +202,15 @@ theorem full_eq (side : Side) (sqrt : K → K) (A : CRS K) (P : Vec K → Vec K)
   | left => exact ⟨_, rfl⟩
   | right => exact ⟨_, rfl⟩
 
+/-- no residual norm met by the loop of the bicgstabl model in `fuel` passes from `s` equals the threshold exactly: at the
+loop guard and after the `alpha` half step of every pass that is made -/
+def NoTie (prm : Params K) (sqrt : K → K) (c07 : K) (A : CRS K) (P : Vec K → Vec K) (epsT zeta0 : K) :
+    Nat → St K → Prop
+  | 0, _ => True
+  | fuel + 1, s => s.zeta ≠ epsT ∧ (cond prm.maxiter epsT s = true →
+      (∀ s1 b, bicgStep prm stdIp sqrt A P epsT 0 { s with rho0 := (-s.omega) * s.rho0 } = .ok (s1, b) → s1.zeta ≠ epsT) ∧
+      ∀ s', body prm stdIp sqrt c07 A P epsT zeta0 s = .ok s' → NoTie prm sqrt c07 A P epsT zeta0 fuel s')
+
+
 end refine
 end Amgcl.Solver.BiCGStabL
